@@ -425,9 +425,20 @@ def _(w, e):
     del need(w, e["on"]).name
 
 
+def _value(v):
+    """Event values are JSON: {"__tuple__": [...]} stands for a tuple (which may hold mutable items)."""
+    if isinstance(v, dict) and set(v) == {"__tuple__"}:
+        return tuple(_value(x) for x in v["__tuple__"])
+    if isinstance(v, list):
+        return [_value(x) for x in v]
+    if isinstance(v, dict):
+        return dict((k, _value(x)) for k, x in v.items())
+    return v
+
+
 @op("data_set")
 def _(w, e):
-    need(w, e["on"])[e["key"]] = e["v"]
+    need(w, e["on"])[e["key"]] = _value(e["v"])
 
 
 @op("data_del")
@@ -553,7 +564,10 @@ def _(w, e):
             rr = _random.Random(dl["pick"])
             dl = rr.sample(names, min(len(names), dl["k"])) if names else []
         opts["definition_list"] = list(dl)
-    sdn.compose(n, e["path"], **opts)
+    if e.get("via") == "method":
+        n.compose(e["path"], **opts)       # the shortcut spelling of sdn.compose(netlist, ...)
+    else:
+        sdn.compose(n, e["path"], **opts)
 
 
 @op("parse")
